@@ -1,19 +1,28 @@
 """Plugin library for the C09 correspondence (passed to ExcelCompiler(plugins=...)).
 
-  FAILAT(id, k, x)   returns x; raises RuntimeError on the k-th call (1-based) made with this id since the last
-                     `reset()`; k = 0 raises on every call.  One id per workbook cell, so the count is the number of
-                     times that cell's formula has been applied.
+  FAILAT(id, k, kind, x)  returns x; raises the Python exception class named `kind` on the k-th call (1-based) made
+                          with this id since the last `reset()`; k = 0 raises on every call.  One id per workbook
+                          cell, so the count is the number of times that cell's formula has been applied.
 """
 COUNTS = {}
+
+
+class PluginError(Exception):
+    """a custom Exception subclass of a plugin library"""
+
+
+KINDS = {c.__name__: c for c in (
+    NameError, UnboundLocalError, RecursionError, KeyError, IndexError, ValueError, TypeError, ZeroDivisionError,
+    AssertionError, AttributeError, NotImplementedError, RuntimeError, PluginError)}
 
 
 def reset():
     COUNTS.clear()
 
 
-def failat(ident, k, x):
+def failat(ident, k, kind, x):
     n = COUNTS.get(ident, 0) + 1
     COUNTS[ident] = n
     if k == 0 or n == k:
-        raise RuntimeError(f'plugin failure id={ident} call={n}')
+        raise KINDS[kind](f'plugin failure id={ident} call={n}')
     return x
